@@ -15,7 +15,7 @@ from vlib import Check, standard_proof_phase, ddmin, VERIF, COQ
 PID = 'C07'
 MANIFEST = dict(
     category='proof',
-    text='Machine-checked (Coq) for the drain-on-stop clause: BackendWorker::_exit is modelled on the backend micro-step machine (exit_drain: emptiness check, populate, process while nothing else is pending; skeleton of _exit read from the source on every run and proved equal to the modelled loop) and, for every configuration, every history before the stop (any interleaving, exited threads included) and every pace of the clock, when the loop leaves no registered thread context holds a queued record or buffered event, everything committed before the stop has been processed, the drain commits nothing itself, and the last action is the flush of every active sink (C07_stop_drains_partial; partial: termination of the loop needs real time to pass the grace period and is observed, not proved). The removal guard of exited threads\' contexts is tied (T-src) and the drain of exited threads\' statements is exercised on the deterministic backend driver (threads exit while their statements sit in the backend\'s buffers, another thread\'s flush is processed first, then the drain; conservation monitor). The process-level clauses (atexit, restart, signal handler, wait status, file content seen from outside) cannot be expressed in the model and are decided by exhaustive fault enumeration on the real library (child processes): a scripted program of 1-3 logging threads (some finished and joined, '
+    text='Machine-checked (Coq) for the drain-on-stop clause: BackendWorker::_exit is modelled on the backend micro-step machine (exit_drain: emptiness check, populate, process while nothing else is pending; skeleton of _exit read from the source on every run and proved equal to the modelled loop) and, for every configuration, every history before the stop (any interleaving, exited threads included) and every pace of the clock, when the loop leaves no registered thread context holds a queued record or buffered event, everything committed before the stop has been processed, the drain commits nothing itself, and the last action is the flush of every active sink (C07_stop_drains_partial; partial: termination of the loop needs real time to pass the grace period and is observed, not proved). The removal guard of exited threads\' contexts is tied (T-src) and the drain of exited threads\' statements is exercised on the deterministic backend driver (threads exit while their statements sit in the backend\'s buffers, another thread\'s flush is processed first, then the drain; conservation monitor); the drain loop itself is run there too: a stop command calls the real BackendWorker::_exit on the driver\'s backend (virtual clock moving a chosen amount per loop iteration) and exit_drain in the extracted model, on generated histories aimed at the states where "is everything empty?" is hard to answer (a drained queue node with a successor after an oversize record, a shrink or a burst that fills a node exactly; full bounded queues; exited threads; grace period), compared observation by observation and checked by a monitor of the clause itself (everything completed before the stop is written and flushed when the drain returns); the successor test of UnboundedSPSCQueue::empty() is tied (T-src, C07_tie_unbounded_empty_checks_successor). The process-level clauses (atexit, restart, signal handler, wait status, file content seen from outside) cannot be expressed in the model and are decided by exhaustive fault enumeration on the real library (child processes): a scripted program of 1-3 logging threads (some finished and joined, '
          'some alive), both clock sources, a spinning or a sleeping backend (measured backlog at the fault), 0-2 stop/start cycles, ends at every chosen '
          'statement boundary by Backend::stop()+return, exit() from main or another thread, return from main, raise() of each of SIGSEGV/SIGABRT/SIGFPE/'
          'SIGILL/SIGINT/SIGTERM, a process-directed SIGINT/SIGTERM, or a real fault (null store, abort(), integer division by zero, trap instruction). '
